@@ -492,7 +492,7 @@ def check_cbo(case):
                         calls="strict" if any(st for _, st in case.get("calls") or []) else ("multi" if case.get("calls") else "one")),
                desc=["sur=" + case["sur"], "strat=" + case["strat"], "nw=%d" % case["nw"], "N=%s" % N, "ff=" + case.get("ff", "min"),
                      "dims=" + "+".join(sorted(set(d[0] for d in case["dims"]))),
-                     "calls=%d" % len(case.get("calls") or [0]), "mode=" + case.get("mode", "search"), "acq=" + case.get("acq", "UCBd"),
+                     "calls=%d" % len(case.get("calls") or [0]), "mode=" + case.get("mode", "search"), "acq=" + case.get("acq", "UCBd"), "acq_opt=" + case.get("acq_opt", "auto"),
                      "cond" if case.get("conds") else "product", "moo" if case.get("moo") else "single_objective", "strict" if any(st for _, st in case.get("calls") or []) else "not_strict", "fail=" + case.get("fail", ["none"])[0], "gather=" + case.get("gather", "BATCH")])
     rec, cfg, rows, error, n0 = run_cbo(case)
     if error is not None:
@@ -508,11 +508,12 @@ def check_cbo(case):
     # the CBO wrapper (Model.wrap): the kinds of the optimizer-level events are the ones predicted from the CBO-level calls, and alternate
     kinds = [e[0] for e in rec.events]
     same, predicted, alternates = model().call(F_WRAP, [rec.cops, kinds])
-    if not same or not alternates:
-        res["sig"]["where"] = "wrapper"
-        return dict(res, ok=False, kind="corr", clause="wrapper_kinds" if not same else "not_alternating",
+    out = judge(res, cfg, n0, [], rec.events, N, extra_rows=rows, strict_coverage=N is not None and not case.get("update_prior"))
+    if out["ok"] and (not same or not alternates):
+        out["sig"]["where"] = "wrapper"
+        return dict(out, ok=False, kind="corr", clause="wrapper_kinds" if not same else "not_alternating",
                     detail=dict(calls=rec.cops, observed=kinds, predicted=predicted))
-    return judge(res, cfg, n0, [], rec.events, N, extra_rows=rows, strict_coverage=N is not None and not case.get("update_prior"))
+    return out
 
 
 EXOTIC = [[1.0, 1.0000000000000002, 1.0000001, 0.0], [0.1, 0.30000000000000004, 0.3, 1e-300], [9007199254740992.0, 9007199254740994.0, 5, -9007199254740994.0],
@@ -611,7 +612,9 @@ def gen_cbo(count, surrogates, big=False, cont=False):
                     c["update_prior"] = True
                 if sur != "DUMMY" and rng.random() < 0.2:
                     c["acq"] = rng.choice(["PI", "gp_hedge", "EI"])
-                if tier == "thorough" and sur == "ET" and rng.random() < 0.04:
+                if tier == "thorough" and sur == "ET" and rng.random() < 0.08 and all(d[0] in ("int", "cat") for d in dims):
+                    # the genetic acquisition optimizer (result not restricted to the candidates: F12 fallback). Numeric ordinals are left
+                    # out: "ga" returns values between the ordinal's values (not a member of the space - a C02 matter, reported)
                     c["acq_opt"] = "ga"
             if i % 8 == 5 and not cont:
                 # warm start: the observed search is fitted on the checkpoint of another search (n_initial_points becomes 0)
